@@ -917,15 +917,6 @@ func (in *inliner) eligibleCallee(fd *ast.FuncDecl) bool {
 	if fd.Body == nil || fd.Type.TypeParams != nil {
 		return false
 	}
-	// a helper parameterised by a channel (one deliver function shared by tunnel and router) stays a function:
-	// the channel-operation index resolves the parameter through its call sites (chanParamFields)
-	if fd.Type.Params != nil {
-		for _, f := range fd.Type.Params.List {
-			if _, isCh := f.Type.(*ast.ChanType); isCh {
-				return false
-			}
-		}
-	}
 	if bodyHas(fd.Body, func(n ast.Node) bool {
 		if c, ok := n.(*ast.CallExpr); ok {
 			if id, ok := c.Fun.(*ast.Ident); ok && id.Name == "recover" {
@@ -945,6 +936,40 @@ func (in *inliner) eligibleCallee(fd *ast.FuncDecl) bool {
 // normalizePackage rewrites the files of one package; returns new contents by file name.
 func normalizePackage(pk *packages.Package, known map[string]bool, srcOf func(string) []byte) (map[string][]byte, []string) {
 	in := &inliner{src: srcOf, pk: pk, fset: pk.Fset, decls: map[types.Object]*ast.FuncDecl{}, changed: map[*ast.File]bool{}, guardRen: map[*ast.Ident]string{}}
+	// a helper that is handed a channel *field* of its caller's client (one deliver function shared by tunnel and
+	// router: pushInbound(conn.inbound, msg)) stays a function: the channel-operation index resolves the parameter
+	// through its call sites (chanParamFields).  Helpers that pass a local or a parameter on are inlined as before.
+	fieldChanCallee := map[types.Object]bool{}
+	for _, f := range pk.Syntax {
+		ast.Inspect(f, func(n ast.Node) bool {
+			call, ok := n.(*ast.CallExpr)
+			if !ok {
+				return true
+			}
+			var obj types.Object
+			switch fun := call.Fun.(type) {
+			case *ast.Ident:
+				obj = pk.TypesInfo.Uses[fun]
+			case *ast.SelectorExpr:
+				obj = pk.TypesInfo.Uses[fun.Sel]
+			}
+			if _, isFn := obj.(*types.Func); !isFn {
+				return true
+			}
+			for _, a := range call.Args {
+				if sel, isSel := a.(*ast.SelectorExpr); isSel {
+					if tv, has := pk.TypesInfo.Types[sel]; has && tv.Type != nil {
+						if _, isCh := tv.Type.Underlying().(*types.Chan); isCh {
+							if s := pk.TypesInfo.Selections[sel]; s != nil && s.Kind() == types.FieldVal {
+								fieldChanCallee[obj] = true
+							}
+						}
+					}
+				}
+			}
+			return true
+		})
+	}
 	for _, f := range pk.Syntax {
 		for _, d := range f.Decls {
 			fd, ok := d.(*ast.FuncDecl)
@@ -955,6 +980,9 @@ func normalizePackage(pk *packages.Package, known map[string]bool, srcOf func(st
 				continue
 			}
 			if !in.eligibleCallee(fd) {
+				continue
+			}
+			if obj := pk.TypesInfo.Defs[fd.Name]; obj != nil && fieldChanCallee[obj] {
 				continue
 			}
 			if obj := pk.TypesInfo.Defs[fd.Name]; obj != nil {
